@@ -213,7 +213,7 @@ def evaluate(case):
                 must[i["m"]].append(i["addr"])
         else:
             if t[2] != p[2]:
-                ev.dev("tagged-or-changed-non-direct-branch", kind=i["kind"], plain=list(p), tagged=list(t), range=case["range"])
+                ev.dev("tagged-or-changed-non-direct-branch", inst_kind=i["kind"], plain=list(p), tagged=list(t), range=case["range"])
                 return ev
     # through the rules
     for m in ("call", "jmp"):
